@@ -243,6 +243,8 @@ def check(ctx):
     for _ in range(10 if ctx.quick else 100):
         for cfg, data, pos, delta in limit_probes(rng):
             one_stream(ctx, rng, cfg, data, f"probe:{pos}", lines, pending)
+        if len(lines) >= 150000:
+            flush_model(ctx, lines, pending)
     check_decoding(ctx)
     n_streams = 600 if ctx.quick else 12000
     for i in range(n_streams):
@@ -257,13 +259,23 @@ def check(ctx):
         data, kind = gen_stream(rng, response, lax)
         cfg = H.near_limits(rng, data, cfg)
         one_stream(ctx, rng, cfg, data, kind, lines, pending)
+        if len(lines) >= 150000:
+            flush_model(ctx, lines, pending)
         if ctx.time_left() is not None and ctx.time_left() < 25:
             ctx.notes.append(f"time budget reached after {i + 1} generated streams")
             break
+    flush_model(ctx, lines, pending)
+
+
+def flush_model(ctx, lines, pending):
+    """compare what has been collected so far with the model and forget it (keeps the thorough tier's memory flat)"""
+    if not lines:
+        return
     outs = ctx.model(lines)
     if outs is not None:
         for (case, canon), m in zip(pending, outs):
             ctx.compare(case, canon, m, "HttpParser.feed_data/feed_eof vs Aio.Http.feed/feedEof")
+    del lines[:]; del pending[:]
 
 
 def replay(ctx, case):
